@@ -53,8 +53,12 @@ def prop(pid, title, **kw):
     PROPS[pid] = d
 
 
-prop('C01', 'every mutator implements bounded-deque semantics', stubs=[ROT_STUB], e1_configs_thorough=['plain'])
-prop('C02', 'single-element insertion never loses an element')
+C01_E2 = ['PUSH_BACK', 'PUSH_FRONT', 'TRY_PUSH_BACK', 'TRY_PUSH_FRONT', 'POP_BACK', 'POP_FRONT', 'REMOVE']
+prop('C01', 'every mutator implements bounded-deque semantics', stubs=[ROT_STUB], e1_configs_thorough=['plain'], bounds=dict(E1=E1_BOUNDS, E2=E2_BOUNDS),
+     # second engine on the single-element operations: the same statements about the same functions from a different compilation (MIR -> C)
+     e2=[dict(tag='std', features=['std', 'alloc'], jobs=e2_jobs([(s, 3, QN5) for s in C01_E2], [(s, 3, TN5) for s in C01_E2]))])
+prop('C02', 'single-element insertion never loses an element', bounds=dict(E1=E1_BOUNDS, E2=E2_BOUNDS),
+     e2=[dict(tag='std', features=['std', 'alloc'], jobs=e2_jobs([(s, 3, QN5) for s in C01_E2[:4]], [(s, 3, TN5) for s in C01_E2[:4]]))])
 prop('C03', 'every element dropped exactly once, never while reachable', thorough_reach=False, stubs=[ROT_STUB], code_failures_count=False)
 C04_E2 = ['TRUNCATE_BACK', 'TRUNCATE_FRONT', 'CLEAR', 'EXTEND_FROM_SLICE', 'FILL_WITH', 'CLONE_FROM', 'DRAIN_DROP']
 prop('C04', 'unoccupied storage is never observed', thorough_reach=False, code_failures_count=False, jobs=12, stubs=[ROT_STUB],
